@@ -1,15 +1,21 @@
 #!/bin/sh
-# full .vo build of the Coq development + extraction + xmodel; run from anywhere
+# full .vo build of the Coq development + extraction + xmodel; run from anywhere.
+# Files named in coq/WIP (one glob per line) are work in progress and are not built.
 set -e
 cd "$(dirname "$0")"
 python3 ../translator/consts.py "${VERIF_REPO:-/repo}/include" Consts.v
 python3 ../translator/bittools.py "${VERIF_REPO:-/repo}/include" BitToolsGen.v
-ls *.v | grep -v '^Extract.v$' | sed 's/^/.\//' > /dev/null
-{ echo "-Q . X"; ls *.v | grep -v '^Extract.v$'; } > _CoqProject
+{ echo "-Q . X"
+  for f in *.v; do
+    [ "$f" = Extract.v ] && continue
+    skip=0
+    if [ -f WIP ]; then for g in $(cat WIP); do case "$f" in $g) skip=1;; esac; done; fi
+    [ $skip = 1 ] || echo "$f"
+  done; } > _CoqProject
 coq_makefile -f _CoqProject -o Makefile > /dev/null
-make -j16 ${MAKE_K:+-k} 2>&1 | grep -v '^COQDEP\|^CLEAN' || true
+make -j16 -k COQC="timeout 1500 coqc" 2>&1 | grep -v '^COQDEP\|^CLEAN' || true
 cd ../ocaml
 if [ ! -f xmodel ] || [ -n "$(find ../coq -name '*.vo' -newer xmodel 2>/dev/null | head -1)" ] || [ xmodel.ml -nt xmodel ]; then
-  coqc -Q ../coq X ../coq/Extract.v 2>&1 | grep -v '^Warning\|^opaque\|^: OrderedTypeEx\|OrderedTypeEx\|extraction-opaque' || true
+  coqc -Q ../coq X ../coq/Extract.v 2>&1 | grep -v '^Warning\|^opaque\|OrderedTypeEx\|extraction-opaque\|^File.*Extract.v\|^ \[extraction' || true
   ocamlfind ocamlopt -O3 -w -a xmodel_core.mli xmodel_core.ml xmodel.ml -o xmodel
 fi
